@@ -119,7 +119,10 @@ def _build(ir, r, ctor=True):
         return glom.Call(B(ir[1]), args=tuple(B(x) for x in ir[2]))
     if k == 'Invoke':
         f = ir[1]
-        inv = glom.Invoke(B(f)) if f[0] in ('Fn',) else glom.Invoke(glom.Spec(B(f)) if f[0] != 'Spec' else B(f))
+        if f[0] not in ('Fn', 'Spec') and len(repr(f)) % 2:
+            inv = glom.Invoke.specfunc(B(f))          # the documented spelling of Invoke(Spec(f))
+        else:
+            inv = glom.Invoke(B(f)) if f[0] in ('Fn',) else glom.Invoke(glom.Spec(B(f)) if f[0] != 'Spec' else B(f))
         for is_spec, ss in ir[2]:
             inv = inv.specs(*[B(x) for x in ss]) if is_spec else inv.constants(*[B(x) for x in ss])
         return inv
